@@ -7,14 +7,16 @@ EXTENDS Paging, Json, IOUtils, TLC, Sequences
 
 Rec == ndJsonDeserialize(IOEnv.TRACE)
 
-VARIABLES l, m, acc, lk, ram, bad
-tvars == <<l, m, acc, lk, ram, bad>>
+VARIABLES l, m, acc, lk, ram, fill, bad
+tvars == <<l, m, acc, lk, ram, fill, bad>>
 
-\* RAM is sparse: a function from <<bank, offset>> to the last value written; unwritten = 0
+\* RAM is sparse: a function from <<bank, offset>> to the last value written; unwritten = what the last loaded
+\* snapshot put there (one byte value per bank; 0 before any load)
 Cell(b, o) == <<b, o>>
-RamRead(r, b, o) == IF Cell(b, o) \in DOMAIN r THEN r[Cell(b, o)] ELSE 0
+RamRead(r, b, o) == IF Cell(b, o) \in DOMAIN r THEN r[Cell(b, o)] ELSE fill[b + 1]
+NoFill == [b \in 1..8 |-> 0]
 
-TraceInit == l = 1 /\ m = 128 /\ acc = 0 /\ lk = FALSE /\ ram = <<>> /\ bad = 0
+TraceInit == l = 1 /\ m = 128 /\ acc = 0 /\ lk = FALSE /\ ram = <<>> /\ fill = NoFill /\ bad = 0
 
 Window(a) == a \div PAGE
 Offset(a) == a % PAGE
@@ -25,31 +27,41 @@ Expected(e) ==
 
 Step(e) ==
     CASE e.ev = "reset" ->
-            /\ m' = e.m /\ acc' = 0 /\ lk' = FALSE /\ ram' = <<>> /\ bad' = bad
+            /\ m' = e.m /\ acc' = 0 /\ lk' = FALSE /\ ram' = <<>> /\ fill' = NoFill /\ bad' = bad
       [] e.ev = "out" ->
             /\ Assert(SelectsPagingOnly(e.port) \/ SelectsNoPaging(e.port), <<"driver used an ambiguous port", l>>)
             /\ LET r == IF SelectsPagingOnly(e.port) THEN StmtOut(m, acc, lk, e.val)
                         ELSE [acc |-> acc, lk |-> lk]
                IN acc' = r.acc /\ lk' = r.lk
-            /\ UNCHANGED <<m, ram, bad>>
+            /\ UNCHANGED <<m, ram, fill, bad>>
       \* a file the machine rejects is not applied: "for any history" the map is a function of the port writes alone
       [] e.ev = "badload" ->
             /\ IF e.accepted
                THEN PrintT(<<"MISMATCH", l, "read", [addr |-> -1, got |-> "a file of the other model / a truncated file was accepted", peek |-> 0,
                                                       want |-> "rejected", acc |-> acc, lk |-> lk, m |-> m]>>) /\ bad' = bad + 1
                ELSE bad' = bad
-            /\ UNCHANGED <<m, acc, lk, ram>>
+            /\ UNCHANGED <<m, acc, lk, ram, fill>>
+      \* a well-formed snapshot of the machine's own model is a new beginning: memory is the file's, the latch is the file's
+      \* (128K; the lock is the file's bit 5, whatever was locked before), and a 48K machine has no latch afterwards either
+      [] e.ev = "load" ->
+            /\ IF e.accepted THEN bad' = bad
+               ELSE PrintT(<<"MISMATCH", l, "read", [addr |-> -1, got |-> "a well-formed snapshot was rejected", peek |-> 0,
+                                                      want |-> "accepted", acc |-> acc, lk |-> lk, m |-> m]>>) /\ bad' = bad + 1
+            /\ ram' = <<>> /\ fill' = e.fill
+            /\ acc' = IF m = 128 THEN e.latch ELSE 0
+            /\ lk' = (m = 128 /\ (e.latch \div 32) % 2 = 1)
+            /\ m' = m
       [] e.ev = "wr" ->
             /\ LET pg == StmtMap(m, acc, Window(e.addr)) IN
                ram' = IF pg[1] = "ram" THEN (Cell(pg[2], Offset(e.addr)) :> e.val) @@ ram ELSE ram
-            /\ UNCHANGED <<m, acc, lk, bad>>
+            /\ UNCHANGED <<m, acc, lk, fill, bad>>
       [] e.ev = "rd" ->
             /\ LET x == Expected(e) IN
                IF x = e.val /\ e.peek = e.val THEN bad' = bad
                ELSE /\ PrintT(<<"MISMATCH", l, "read", [addr |-> e.addr, got |-> e.val, peek |-> e.peek,
                                                       want |-> x, acc |-> acc, lk |-> lk, m |-> m]>>)
                     /\ bad' = bad + 1
-            /\ UNCHANGED <<m, acc, lk, ram>>
+            /\ UNCHANGED <<m, acc, lk, ram, fill>>
 
 TraceNext == l <= Len(Rec) /\ Step(Rec[l]) /\ l' = l + 1
 TraceSpec == TraceInit /\ [][TraceNext]_tvars
